@@ -100,28 +100,50 @@ func runVariant(kind string, cfg runCfg, table map[int][4]uint64, ops []Op, v Va
 	}
 	rng := rand.New(rand.NewSource(seed))
 	var w *World
-	root := "a"
-	if kind == "map" {
+	switch kind {
+	case "map":
 		w = newMapWorld(cfg.T, cfg.Limit, table)
-		root = "m"
-	} else {
+	case "nested":
+		w = NewWorld(uint32(cfg.T))
+	default:
 		w = newArrayWorld(cfg.T)
 	}
-	_ = root
+	w.RawIDs = true
 	rr := RunRec{T: t, Ev: "Run", Variant: v.Name, Results: []string{}, Abs: []string{}, Regs: []string{}, Errors: []string{}, Kind: kind}
 	for i, op := range ops {
-		ev, res := w.Exec(op)
+		op := op
+		ev, res := w.ExecAny(&op)
 		rr.Results = append(rr.Results, resToken(ev, res))
+		if kind == "nested" && res.Class != "ok" {
+			rr.Errors = append(rr.Errors, "request failed: "+ev+" "+res.Class)
+			break
+		}
 		persist := false
 		switch v.Sched {
 		case "every":
 			persist = true
 		case "random", "reopen", "drop":
 			persist = rng.Intn(4) == 0
+		case "mixed":
+			// commits and cache evictions at independent random points (an eviction may separate an operation from its commit)
+			persist = rng.Intn(4) == 0
+			if kind != "nested" && rng.Intn(4) == 0 {
+				w.Exec(Op{Op: "dropcache"})
+			}
+		case "droponly":
+			// evict the read cache WITHOUT committing (pending changes stay in the write set)
+			if kind != "nested" && rng.Intn(3) == 0 {
+				w.Exec(Op{Op: "dropcache"})
+			}
 		}
 		if persist && i < len(ops)-1 {
 			w.commitUntilSuccess(v.Mode, v.Workers, v.Faults, rng, &rr)
-			switch v.Sched {
+			sched := v.Sched
+			if kind == "nested" {
+				sched = "every" // reopening or dropping the cache retires child handles the history still uses: commits only
+			}
+			switch sched {
+			case "mixed":
 			case "reopen":
 				if r := w.Reopen(); r.Class != "ok" {
 					rr.Errors = append(rr.Errors, "reopen failed: "+r.Class)
@@ -195,7 +217,12 @@ func cmdMultiRun(args []string) {
 		}
 		ops := make([]Op, 0, len(raw))
 		for _, r := range raw {
-			op := parseTupleOp(r, h)
+			var op Op
+			if *kind == "nested" {
+				op = parseNestedOp(r)
+			} else {
+				op = parseTupleOp(r, h)
+			}
 			if op.Op == "commit" || op.Op == "dropcache" || op.Op == "crash" {
 				continue
 			}
